@@ -41,6 +41,9 @@ inductive Expr where
   | add (a b : Expr)
   | mul (a : Expr) (n : Nat)
   | filt (name : String) (ps : List Nat) (args : List Expr)
+  /-- `recv.name(args…)` through `unknown_method_callback` (pycompat): `args[0]` is the receiver,
+      whose kind selects `string_methods` / `map_methods` / `seq_methods` -/
+  | meth (name : String) (ps : List Nat) (args : List Expr)
   | index (a : Expr) (k : Nat)
   | slice (a : Expr) (x y : Nat)
   | attr (a : Expr) (key : String)
@@ -127,9 +130,9 @@ def stripIgnoredExt (name : List Char) : List String → List Char
 def lastExt (name : List Char) : List Char := (name.reverse.takeWhile (· != '.')).reverse
 
 def autoEscapeOfName (name : String) : Mode :=
-  let ext := lastExt (stripIgnoredExt name.toList Gen.autoEscapeIgnoredExts)
-  if Gen.autoEscapeHtmlExts.any (·.toList == ext) then .html
-  else if Gen.autoEscapeJsonExts.any (·.toList == ext) then .json
+  let ext := lastExt (stripIgnoredExt name.toList Gen.c02AutoEscapeIgnoredExts)
+  if Gen.c02AutoEscapeHtmlExts.any (·.toList == ext) then .html
+  else if Gen.c02AutoEscapeJsonExts.any (·.toList == ext) then .json
   else .none
 
 /-- `derive_auto_escape(value, initial_auto_escape)` -/
@@ -211,6 +214,13 @@ def bindParams : List String → List Nat → M (List (String × Nat))
     let rest ← bindParams ps rs
     pure ((p, r) :: rest)
 
+/-- dispatch of `pycompat::unknown_method_callback` on the receiver's kind -/
+def methodKind : V → Option String
+  | .str _ _ => some "str"
+  | .map _ => some "dict"
+  | .seq _ => some "list"
+  | _ => Option.none
+
 def seqLen : V → Nat
   | .seq xs => xs.length
   | _ => 0
@@ -246,6 +256,15 @@ def evalExpr (strict : Bool) : Nat → Env → Expr → M Nat
     | .filt name ps args => do
       let rs ← evalArgs strict fuel env args
       applyNamed strict env name ps rs
+    | .meth name ps args => do
+      let rs ← evalArgs strict fuel env args
+      match rs with
+      | [] => failM
+      | r :: _ => do
+        let v ← readM r
+        match methodKind v with
+        | Option.none => failM
+        | some k => applyNamed strict env (k ++ "." ++ name) ps rs
     | .index a k => do
       let ra ← evalExpr strict fuel env a
       applyG strict env (elemF k) true [ra]
